@@ -208,6 +208,9 @@ type Change struct {
 	Del bool
 	Val []byte
 	TS  uint64 // native mode: the timestamp the application stamps (made monotone per key)
+	// XFlag (native mode): application-local flag bits (outside the synced set) set in the header next to the
+	// deleted flag; they are not part of snapshots and never travel
+	XFlag byte
 }
 
 // AppCommit applies the changes in one application transaction on instance i.
@@ -283,7 +286,7 @@ func (f *Fleet) appCommit(i int, changes []Change, hold func()) error {
 				if ch.Del {
 					fl, val = 1, nil
 				}
-				b := model.BuildHeader(ts, uint64(txn.ID()), fl, nil, val)
+				b := model.BuildHeader(ts, uint64(txn.ID()), fl|(ch.XFlag&^1), nil, val)
 				if err := txn.Put(dbi, ch.Key, b, 0); err != nil {
 					return err
 				}
